@@ -41,8 +41,10 @@ class Modules(object):
 class FakeTime(object):
   def __init__(self):
     self.now = 0.0
+    self.reads = []
 
   def time(self):
+    self.reads.append(self.now)
     return self.now
 
 
@@ -87,8 +89,12 @@ class CacheRun(object):
       orig = strat.choose_item
 
       def choose_item():
+        # the clock value the strategy itself read while taking a snapshot (the other thread may
+        # advance the clock between that read and this log line)
+        self.clock.reads = []
         r = orig()
-        self.ev.append(dict(k='chose', m=self.mid(r), now=int(self.clock.now)))
+        now = self.clock.reads[0] if self.clock.reads else self.clock.now
+        self.ev.append(dict(k='chose', m=self.mid(r), now=int(now)))
         return r
       strat.choose_item = choose_item
     self.last_obs = None
